@@ -52,6 +52,61 @@ def body_hist(s1, s2, tol1, tol2, third=None):
     return isinstance(ref, list) and len(ref) > 3
 
 
+def make_ctx_ext():
+    """a context that is itself derived with extended_with(None) and has an environment X whose body extends the
+    context at parse time (macro \\i[ defined inside the body only)"""
+    from pylatexenc.macrospec import (MacroSpec, EnvironmentSpec, ParsingStateDeltaExtendLatexContextDb,
+                                      LatexEnvironmentBodyContentsParser)
+    base = make_ctx_s(True)
+    base.add_context_category('X', environments=[EnvironmentSpec(
+        'X', make_body_parser=lambda token, nodeargd, arg_parsing_state_delta: LatexEnvironmentBodyContentsParser(
+            'X', contents_parsing_state_delta=ParsingStateDeltaExtendLatexContextDb(
+                extend_latex_context=dict(macros=[MacroSpec('i', '[')]))))])
+    base.freeze()
+    return base.extended_with(None, macros=[MacroSpec('y', '{')])
+
+
+class _LazyStdArg(object):
+    """custom argument parser that obtains a standard parser with options through the public cache function"""
+
+    def contents_can_be_empty(self):
+        return True
+
+    def parse(self, latex_walker, token_reader, parsing_state, **kwargs):
+        from pylatexenc.latexnodes.parsers import get_standard_argument_parser
+        return get_standard_argument_parser('[', allow_pre_space=False).parse(
+            latex_walker=latex_walker, token_reader=token_reader, parsing_state=parsing_state, **kwargs)
+
+
+def make_ctx_other():
+    from pylatexenc.macrospec import LatexContextDb, MacroSpec
+    from pylatexenc.latexnodes import LatexArgumentSpec
+    db = LatexContextDb()
+    db.add_context_category('o', macros=[MacroSpec('k', arguments_spec_list=[LatexArgumentSpec(_LazyStdArg())])])
+    return db
+
+
+def body_hist_ext(s1, s2):
+    ref = run(s2, make_ctx_ext(), False)
+    ctx = make_ctx_ext()
+    before = snapshot(ctx)
+    run(s1, ctx, True)
+    got = run(s2, ctx, False)
+    require(got == ref, 'the same input parses differently after a document that extends the context while parsing')
+    require(snapshot(ctx) == before, 'parsing modified the context database it was given')
+    return isinstance(ref, list)
+
+
+def body_hist_other_ctx(s1, s2):
+    """first parse with an unrelated context whose argument parser uses get_standard_argument_parser with options"""
+    ref = run(s2, make_ctx_s(True), False)
+    ctx = make_ctx_s(True)
+    run(s1, make_ctx_other(), True)
+    got = run(s2, ctx, False)
+    require(got == ref, 'the same input parses differently after an unrelated parse used the shared argument-parser cache')
+    return isinstance(ref, list)
+
+
 def body_default_ctx(s1, s2):
     """the same with the shared default context (spec objects shared by every walker)."""
     clear_parser_cache()
@@ -79,6 +134,8 @@ PAIRS = [
     ('envV', BS + 'begin{V}?', BS + 'begin{V}?' + BS + 'end{V}'),
     ('nl', BS + BS + '*[?', BS + BS + '?[?]'),
     ('plus', BS + 'p?', BS + 'p+?'),
+    ('unk_env', BS + 'begin{zz}?' + BS + 'end{zz}', BS + 'begin{yy}?' + BS + 'end{yy}'),
+    ('unk_macro', BS + 'zz{?}', BS + 'yy[?]'),
 ]
 
 
@@ -98,6 +155,11 @@ def conditions(tier):
                       timeout=T, twin=False, smoke=[dict(s1=BS + 'v', s2='{'), dict(s1='$', s2='}')]))
     conds.append(Cond('hist_three', P, two_pre(BS + 'v{?', BS + 'v{?}'), "body_hist(s1, s2, True, False, '" + BS + BS + "v{{{')",
                       timeout=T, twin=False, smoke=[dict(s1=BS + 'v{{', s2=BS + 'v{x}')]))
+    conds.append(Cond('hist_ext', P, two_pre(BS + 'begin{X}' + BS + 'i[?]?' + BS + 'end{X}', BS + 'i[?]?' + BS + 'y{?}'),
+                      'body_hist_ext(s1, s2)', timeout=T, cost=2, twin=False,
+                      smoke=[dict(s1=BS + 'begin{X}' + BS + 'i[a]b' + BS + 'end{X}', s2=BS + 'i[a]b' + BS + 'y{c}')]))
+    conds.append(Cond('hist_other_ctx', P, two_pre(BS + 'k[?]?', BS + 'b?[?]{?}'), 'body_hist_other_ctx(s1, s2)', timeout=T,
+                      cost=2, twin=False, smoke=[dict(s1=BS + 'k[a]b', s2=BS + 'b [a]{b}')]))
     for nm, a, b in [('d_verb', BS + 'verb|?', BS + 'verb|?|?'), ('d_item', BS + 'item[?', BS + 'item[?] ?'),
                      ('d_frac', BS + 'frac?', BS + 'frac??'), ('d_lst', BS + 'begin{lstlisting}[?', BS + 'begin{lstlisting}[?]x' + BS + 'end{lstlisting}')]:
         conds.append(Cond('default_' + nm, P, two_pre(a, b), 'body_default_ctx(s1, s2)', timeout=T, cost=2, twin=False,
